@@ -1,15 +1,21 @@
 #!/bin/bash
-# seedall.sh [tier]: apply every stored seeded change to /repo in turn, run the property's check, revert; print one line per change.
-# (needs a clean /repo working tree; leaves it clean)
-TIER=${1:-quick}
+# seedall.sh [tier] [regex]: apply every stored seeded change (whose directory name matches regex) to /repo in turn,
+# run the property's check, revert; one line per change is written to seeded/RESULTS.txt (replacing an older line
+# for the same change). Needs a clean /repo working tree and leaves it clean.
+TIER=${1:-quick}; FILTER=${2:-.}
 cd /verif || exit 2
 if [ -n "$(git -C /repo status --porcelain --untracked-files=no)" ]; then echo "/repo working tree is not clean"; exit 2; fi
+touch seeded/RESULTS.txt
 for d in seeded/*/; do
   id=$(basename $d); prop=${id%%-*}
-  if ! git -C /repo apply --check /verif/$d/patch.diff 2>/dev/null; then echo "$id: patch does not apply to the current /repo"; continue; fi
-  git -C /repo apply /verif/$d/patch.diff
-  out=$(./vcheck $prop --tier $TIER 2>&1); rc=$?
-  git -C /repo checkout -- .
-  key=$(echo "$out" | grep -m1 "^  key:" | sed 's/^  key: //')
-  echo "$id: rc=$rc $(echo "$out" | grep -c '^VIOLATION') violation line(s); first key: ${key:-none}; $(echo "$out" | tail -1 | cut -c1-120)"
+  echo "$id" | grep -Eq "$FILTER" || continue
+  if ! git -C /repo apply --check /verif/$d/patch.diff 2>/dev/null; then line="$id: patch does not apply to the current /repo"; else
+    git -C /repo apply /verif/$d/patch.diff
+    out=$(./vcheck $prop --tier $TIER 2>&1); rc=$?
+    git -C /repo checkout -- .
+    key=$(echo "$out" | grep -m1 "^  key:" | sed 's/^  key: //')
+    line="$id: rc=$rc $(echo "$out" | grep -c '^VIOLATION') violation line(s); first key: ${key:-none}; $(echo "$out" | tail -1 | cut -c1-120)"
+  fi
+  echo "$line"
+  grep -v "^$id:" seeded/RESULTS.txt > seeded/RESULTS.tmp; echo "$line" >> seeded/RESULTS.tmp; sort seeded/RESULTS.tmp > seeded/RESULTS.txt; rm -f seeded/RESULTS.tmp
 done
